@@ -159,6 +159,7 @@ func c07Negatives() []*pgen.Case {
 		mk("chain_without_error", "fallible extend below an explicit inner method without error result", types+"type Wrap struct{ I In }\ntype WrapOut struct{ I Out }\n\n// goverter:converter\n// goverter:extend Ext\ntype Converter interface {\n\tOuter(source Wrap) (WrapOut, error)\n\tInner(source In) Out\n}\n"),
 		mk("map_func_without_error", "fallible map|FUNC in a method without error result", "type In struct{ V int }\ntype Out struct{ V int }\nfunc F(v int) (int, error) { return v, nil }\n\n// goverter:converter\ntype Converter interface {\n\t// goverter:map V V | F\n\tConvert(source In) Out\n}\n"),
 		mk("enum_error_without_error", "enum @error action in a method without error result", "type A int\nconst A1 A = 1\ntype B int\nconst B1 B = 1\n\n// goverter:converter\n// goverter:enum:unknown @error\ntype Converter interface {\n\t// goverter:enum:map A1 B1\n\tConvert(source A) B\n}\n"),
+		mk("delegate_without_error", "method without error result whose own pair has a fallible extend function", types+"// goverter:converter\n// goverter:extend Ext\ntype Converter interface {\n\tConvert(source HA) HB\n}\n"),
 		mk("update_without_error", "fallible extend in an update method without error result", types+"// goverter:converter\n// goverter:extend Ext\ntype Converter interface {\n\t// goverter:update target\n\tConvert(source In, target *Out)\n}\n"),
 	}
 }
